@@ -288,6 +288,64 @@ def fuzz(ctx):
             ctx.count("slow-but-finished")
 
 
+def loop_correspondence(ctx):
+    """Model loops (vm_compute) vs the real functions on generated byte strings."""
+    import struct
+    from sharepoint2text.parsing.extractors.ms_legacy import ppt_extractor
+    from sharepoint2text.parsing.extractors.util import image_utils
+    rng = ctx.rng
+    zl = lambda b: "[" + ";".join(str(x) for x in b) + "]%Z"
+    # _iter_records: streams of (mostly) well-formed records + garbage
+    cases, info = [], []
+    for _ in range(ctx.n(300, 3000)):
+        buf = bytearray()
+        for _ in range(rng.randint(0, 6)):
+            r = rng.random()
+            if r < 0.6:
+                payload = rng.randbytes(rng.randint(0, 12))
+                ver = rng.choice([0x0F, 0x00, 0x01, 0x1F, 0xFFF0 | rng.choice([0, 15])])
+                ln = len(payload) if rng.random() < 0.8 else rng.choice([0, 1, 2 ** 32 - 1, len(payload) + rng.randint(1, 40)])
+                buf += struct.pack("<HHI", ver, rng.choice([1000, 4000, 4008, 0, 65535]), ln) + payload
+            elif r < 0.8:
+                buf += rng.randbytes(rng.randint(1, 9))
+            else:
+                buf += b"\xff" * rng.randint(1, 8)
+        data = bytes(buf)
+        start = rng.choice([0, 0, 0, 1, 8, len(data)])
+        got = [(r.rec_type, r.rec_instance, r.is_container, r.offset, r.end_offset) for r in ppt_extractor._iter_records(data, start)]
+        ctx.case(("iter_records", data, start), len(got) > 0, kind="loop:iter_records")
+        cases.append(f"({zl(data)}, {start}%Z, [" + ";".join(
+            f"({a}, {b}, {'true' if c else 'false'}, {d}, {e})" for a, b, c, d, e in got) + "]%Z)")
+        info.append((data.hex(), start))
+    pre = "From Coq Require Import List ZArith.\nFrom S2T Require Import C01.Loops C01.Corr.\nImport ListNotations.\n"
+    ok, failing, log = common.coq_eval_shards(ctx, "iter", pre, "iter_case", cases, shard=400, ty="list Z * Z * list rec")
+    ctx.obligation("correspondence:iter_records==ppt_extractor._iter_records", ok and not failing,
+                   (f"{len(failing)} disagreements, first: {info[failing[0]] if failing else ''} " + log)[:800])
+    # get_jpeg_dimensions
+    cases, info = [], []
+    for _ in range(ctx.n(300, 3000)):
+        buf = bytearray(b"\xff\xd8")
+        for _ in range(rng.randint(0, 6)):
+            r = rng.random()
+            if r < 0.5:
+                m = rng.choice([0xE0, 0xE1, 0xDB, 0xC4, 0xC0, 0xC2, 0xFF, 0xD9, 0xDA, 0x00])
+                payload = rng.randbytes(rng.randint(0, 14))
+                ln = len(payload) + 2 if rng.random() < 0.8 else rng.choice([0, 1, 2, 65535, rng.randint(0, 40)])
+                buf += bytes([0xFF, m]) + struct.pack(">H", ln) + payload
+            elif r < 0.8:
+                buf += rng.randbytes(rng.randint(1, 6))
+            else:
+                buf += b"\xff" * rng.randint(1, 5)
+        data = bytes(buf)
+        w, h = image_utils.get_jpeg_dimensions(data)
+        ctx.case(("jpeg", data), w is not None, kind="loop:jpeg_dims")
+        cases.append(f"({zl(data)}, " + ("None" if w is None else f"Some ({w}, {h})%Z") + ")")
+        info.append(data.hex())
+    ok, failing, log = common.coq_eval_shards(ctx, "jpeg", pre, "jpeg_case", cases, shard=400, ty="list Z * option (Z * Z)")
+    ctx.obligation("correspondence:jpeg_dims==image_utils.get_jpeg_dimensions", ok and not failing,
+                   (f"{len(failing)} disagreements, first: {info[failing[0]] if failing else ''} " + log)[:800])
+
+
 def run(ctx):
     import logging
     logging.disable(logging.CRITICAL)
@@ -307,7 +365,9 @@ def run(ctx):
     cli_paths(ctx)
     loop_inventory(ctx)
     fuzz(ctx)
-    ctx.prove("C01/Props.v", ["C01/ExnProofs.vo"], expected=["C01_esc_sound", "C01_contained_sound"])
+    ctx.prove("C01/Props.v", ["C01/ExnProofs.vo", "C01/LoopsProofs.vo", "C01/Corr.vo"], expected=[
+        "C01_esc_sound", "C01_contained_sound", "C01_iter_records_terminates", "C01_jpeg_dims_terminates"])
+    loop_correspondence(ctx)
     ctx.prove("C01/Inst.v", ["Gen/C01Skeletons.vo", "C01/ExnProofs.vo"], expected=[
         "C01_all_contained", "C01_no_foreign_exception_escapes", "C01_silent_wrappers", "C01_silent_sound",
         "C01_skeleton_count"])
